@@ -19,6 +19,9 @@ type specEnv struct {
 	bound map[string]*Val
 	pkg   *types.Package
 	top   string
+	// callSite: the environment evaluates a CALLEE's postcondition at one of its call
+	// sites (old = the state before the call)
+	callSite bool
 }
 
 func (e *specEnv) withBound(name string, v *Val) *specEnv {
